@@ -170,6 +170,10 @@ class Prop(object):
                         probs, rec = self._grammar(blob, 0, COMP_ID[comp], label)
                         if probs:
                             stage = 'grammar'
+                        import copy as _copy
+                        if bytes(_copy.copy(m)) != blob:
+                            stage = stage or 'copy'
+                            probs.append('a copy of the message exports other octets')
                         if rec is not None and not probs:
                             lit = rec['literal']
                             raw = content if isinstance(content, bytes) else content.encode('utf-8')
@@ -445,6 +449,20 @@ class Prop(object):
                                 probs.append('import / re-export changes the octets')
                             if sorted(bytes(s) for s in e2.signatures) != sorted(bytes(s) for s in e.signatures):
                                 probs.append('signature multiset changes on import')
+                            # a copy of a message is that message: built by PGPy (e) or read (e2), it exports the same composition
+                            import copy as _copy
+                            for what, src in (('a copy of the message', e), ('a copy of the imported message', e2)):
+                                try:
+                                    cb = bytes(_copy.copy(src))
+                                except Exception as ex:
+                                    probs.append('%s cannot be exported: %r' % (what, ex))
+                                    continue
+                                if cb != blob:
+                                    try:
+                                        rmsg.recognise(cb)
+                                        probs.append('%s exports other octets' % what)
+                                    except Exception as ex:
+                                        probs.append('%s exports a sequence that is not derivable from the grammar: %r' % (what, ex))
                             # inner message after decryption by the reference
                             rc = recips[0]
                             pt, info = rmsg.decrypt(blob[sum(0 for _ in ()):] if not rec['prefix_sigs'] else b''.join(x['raw'] for x in rec['esks']) + rec['container']['raw'],
@@ -467,7 +485,7 @@ class Prop(object):
                             probs.append('raises %r' % (ex,))
                         r.outcomes['ok' if not probs else 'violation'] += 1
                         if probs:
-                            r.viol('encrypted', {'part': 'encrypted', 'mode': mode, 'flag': any('flag' in p for p in probs), 'decrypted_export': dec_export_bad}, case, label + ': ' + '; '.join(probs[:3]))
+                            r.viol('encrypted', {'part': 'encrypted', 'mode': mode, 'flag': any('flag' in p for p in probs), 'decrypted_export': dec_export_bad, 'copy': any('copy of' in p for p in probs)}, case, label + ': ' + '; '.join(probs[:3]))
         r.samples.append({'modes': ['sign-then-encrypt', 'encrypt-then-sign']})
         return r
 
